@@ -580,4 +580,20 @@ Definition optZ_eqb (a b : option Z) : bool :=
                  and inner == "if %s is broker:\n    del self.brokers[tubref]" % lp.target.elts[1].id
                  and plain_dict_attr("brokers") and not binds_name(pm, "list"))                                        # F2d
     need(det_ref or det_items, "Tub.brokerDetached changed")
+    # ---- the SECOND LEG of getReference (lib/RefLeg.v, lib/ConvergeRef.v): the Deferred handed out is the Broker lookup's,
+    # with ONE callback that makes ONE remote call on the Broker it is given; Broker.finish is reached from connectionLost
+    # and shutdown only; and an established connection has no idle-disconnect timer unless the application asks for one
+    # (C14_established_end_has_no_timer: `Advance` never ends a live Broker end)
+    gr = un(P.find_def(pm, "Tub._getReference"))
+    need(gr.rstrip().endswith("d = self.getBrokerForTubRef(sturdy.getTubRef())\n    d.addCallback(lambda b: b.getYourReferenceByName(name))\n    return d"),
+         "Tub._getReference no longer is getBrokerForTubRef + one getYourReferenceByName callback")
+    gy = un(P.find_def(bm, "Broker.getYourReferenceByName"))
+    need(gy.count("callRemote(") == 1 and gy.rstrip().endswith("d = self.remote_broker.callRemote('getReferenceByName', name=name)\n    return d"),
+         "Broker.getYourReferenceByName no longer is one callRemote('getReferenceByName')")
+    callers = sorted(f.name for f in ast.walk(P.find_class(bm, "Broker")) if isinstance(f, ast.FunctionDef)
+                     and any(isinstance(c, ast.Call) and un(c.func) == "self.finish" for c in ast.walk(f)))
+    need(callers == ["connectionLost", "shutdown"], "Broker.finish is called from %s" % callers)
+    tconsts = P.module_consts(pm, body=P.find_class(pm, "Tub").body)
+    need("disconnectTimeout" in tconsts and tconsts["disconnectTimeout"] is None,
+         "Tub.disconnectTimeout has a default: an established connection now has an idle-disconnect timer the model lacks")
     return {"ConvergeGen.v": "\n\n".join(out) + "\n"}
